@@ -137,8 +137,7 @@ def run(ctx):
     if ctx.tier == "quick":
         st = R.standard(ctx, [R.Plan("qr", "S_q1", emit_mod=120, max_inst=2, max_pw=1, stray=1),
                               # one service name is a prefix of the other; an entry with an unknown protocol word
-                              R.Plan("pref", "S_pref", emit_mod=250, max_inst=1, max_pw=2, stray=1),
-                              R.Plan("unk", "S_unk", emit_mod=400, max_inst=1, max_pw=2, stray=1)], OWN,
+                              R.Plan("pref", "S_pref", emit_mod=200, max_inst=1, max_pw=2, stray=1)], OWN,
                         need=("replies", "accept_D", "accept_R"))
         n = differential(ctx, "dq", "S_t1d", nb=350, per=1, max_inst=1, max_pw=2, emit_mod=20, stray=1)
     else:
